@@ -3,6 +3,7 @@ import OpacusLean.Lemmas.PrvRoll
 import OpacusLean.Lemmas.PrvTree
 import OpacusLean.Lemmas.PrvDomain
 import OpacusLean.Lemmas.PrvCentred
+import OpacusLean.Lemmas.PrvPerm
 /-! # C07 — the PRV accountant's discrete algebra
 
 What is proved here is the index / shift / inversion algebra of
@@ -211,6 +212,51 @@ theorem compose_heterogeneous_exact (N : ℕ) (hN : N % 2 = 0) (hN2 : 2 ≤ N) (
   have hrep := composeHeterogeneous_rep (c := c) rad ds ns res h (fun d hd => by rw [hsz d hd, hNc])
     (fun d hd j hj => by have := hsupp d hd j hj; rw [hc] at this; exact this) hn hfit
   exact ⟨by rw [hrep.size, hNc], hrep.shift, fun j => hrep.getD j⟩
+
+/-- **compose_heterogeneous_perm_invariant**: reorder the history (the groups `(prv_i, n_i)` jointly) in any
+way – the convolution tree then pairs different neighbours and sets aside different odd elements – and, as
+long as nothing is aliased (the hypotheses of `compose_heterogeneous_exact`, stated for one order only),
+both orders return the same pmf. -/
+theorem compose_heterogeneous_perm_invariant (N : ℕ) (hN : N % 2 = 0) (hN2 : 2 ≤ N) (rad : DPrv R → ℕ)
+    (ds ds' : List (DPrv R)) (ns ns' : List ℕ) (res res' : DPrv R)
+    (hl : ds.length = ns.length) (hl' : ds'.length = ns'.length)
+    (hp : (ds.zip ns).Perm (ds'.zip ns'))
+    (h : composeHeterogeneous ds ns = .ok res) (h' : composeHeterogeneous ds' ns' = .ok res')
+    (hsz : ∀ d ∈ ds, d.pmf.size = N)
+    (hsupp : ∀ d ∈ ds, ∀ j, d.pmf.getD j 0 ≠ 0 → N / 2 - 1 ≤ j + rad d ∧ j ≤ N / 2 - 1 + rad d)
+    (hn : ∀ n ∈ ns, 1 ≤ n) (hfit : weightedRad rad ds ns ≤ N / 2 - 1) :
+    res'.pmf = res.pmf := by
+  have hds : ds.Perm ds' := by
+    have := hp.map Prod.fst
+    rwa [List.map_fst_zip (by omega), List.map_fst_zip (by omega)] at this
+  have hns : ns.Perm ns' := by
+    have := hp.map Prod.snd
+    rwa [List.map_snd_zip (by omega), List.map_snd_zip (by omega)] at this
+  have hsz' : ∀ d ∈ ds', d.pmf.size = N := fun d hd => hsz d (hds.mem_iff.mpr hd)
+  have hsupp' : ∀ d ∈ ds', ∀ j, d.pmf.getD j 0 ≠ 0 → N / 2 - 1 ≤ j + rad d ∧ j ≤ N / 2 - 1 + rad d :=
+    fun d hd => hsupp d (hds.mem_iff.mpr hd)
+  have hn' : ∀ n ∈ ns', 1 ≤ n := fun n hn0 => hn n (hns.mem_iff.mpr hn0)
+  have hfit' : weightedRad rad ds' ns' ≤ N / 2 - 1 := by
+    rw [weightedRad_eq_zip, ← (hp.map _).sum_eq, ← weightedRad_eq_zip]; exact hfit
+  obtain ⟨s1, _, g1⟩ := compose_heterogeneous_exact N hN hN2 rad ds ns res h hsz hsupp hn hfit
+  obtain ⟨s2, _, g2⟩ := compose_heterogeneous_exact N hN hN2 rad ds' ns' res' h' hsz' hsupp' hn' hfit'
+  have hP : polyProd ds' ns' = polyProd ds ns := by
+    rw [polyProd_eq_zip, polyProd_eq_zip, (hp.map _).prod_eq]
+  have hT : totalCount ds' ns' = totalCount ds ns := by
+    rw [totalCount_eq_zip, totalCount_eq_zip, (hp.map _).sum_eq]
+  apply ext_getD (by rw [s1, s2])
+  intro j
+  rw [g1, g2, hP, hT]
+
+
+/-- non-vacuity: the three groups of the example above in two different orders (different trees) -/
+example :
+    (match composeHeterogeneous
+      [(⟨#[0, 2, 0, 0], ⟨-4, 2, 4, -1⟩⟩ : DPrv ℤ), ⟨#[0, 1, 0, 1], ⟨0, 6, 4, 3⟩⟩, ⟨#[0, 1, 1, 0], ⟨-2, 4, 4, 1⟩⟩] [1, 1, 2] with
+    | .ok o => o.pmf.toList | .error _ => [])
+    = (match composeHeterogeneous
+      [(⟨#[0, 1, 1, 0], ⟨-2, 4, 4, 1⟩⟩ : DPrv ℤ), ⟨#[0, 2, 0, 0], ⟨-4, 2, 4, -1⟩⟩, ⟨#[0, 1, 0, 1], ⟨0, 6, 4, 3⟩⟩] [2, 1, 1] with
+    | .ok o => o.pmf.toList | .error _ => []) := by decide
 
 end compose
 
